@@ -12,6 +12,7 @@ package server
 // Build: only=[this file, zz_verif_engine_test.go, zz_verif_engine_monitor_test.go, zz_verif_engine_replay_test.go].
 
 import (
+	"bytes"
 	"encoding/json"
 	"fmt"
 	"math/rand"
@@ -730,6 +731,31 @@ func vThValueHelpers(r *rand.Rand, x *vThRun, n int) {
 		}
 		// the ingress check every client frame passes before it can be stored (and, later, read back)
 		accepted := protocol.NewLockCommandDataFromOriginBytes(raw) != nil
+		if accepted {
+			// C14 (lossless codecs): the two readers of the property header agree — every property the list reader returns is found
+			// by the by-code reader (first entry with that code), with the same value
+			func() {
+				defer func() { _ = recover() }() // panics are C13's subject, reported below
+				d := protocol.NewLockResultCommandDataFromOriginBytes(raw)
+				seen := map[uint8]bool{}
+				for _, p := range d.GetDataProperties() {
+					if seen[p.Code] {
+						continue
+					}
+					seen[p.Code] = true
+					q := d.GetDataProperty(p.Code)
+					if q == nil || !bytes.Equal(q.Value, p.Value) {
+						got := "nil"
+						if q != nil {
+							got = vHex(q.Value)
+						}
+						x.report("C14:property-reader-disagrees", fmt.Sprintf("GetDataProperties lists property %d = %s, GetDataProperty(%d) returns %s", p.Code, vHex(p.Value), p.Code, got),
+							map[string]interface{}{"frame": vHex(raw)})
+						break
+					}
+				}
+			}()
+		}
 		for _, fn := range funcs {
 			res := ""
 			func() {
